@@ -28,6 +28,7 @@ def derived(ver, wd):
         ver.cov["stages"].append({"stage": "derived types", "note": "not built yet: derived CborLen is not covered by this run"})
         return
     derive.run_len(ver, wd)
+    derive.random_schemas(ver, wd, "C07")
 
 
 def replay(doc):
